@@ -486,7 +486,7 @@ Section Coincidence.
       induction H as [|s l Hs Hl IH]; intros init Hag; simpl; auto. f_equal.
       + unfold slot_val. rewrite Hs; [reflexivity|]. intros x Hx. apply Hag. simpl. apply InR_fold_init. apply InR_union_r. assumption.
       + apply (IH (set_union init (get_r f (slot_e s)))). intros x Hx. apply Hag. assumption.
-    - simpl in *. apply IHe2. assumption.
+    - simpl. apply IHe2. intros x Hx. apply Hag. simpl. destruct e1; try assumption. apply InR_union_l. assumption.
   Qed.
 End Coincidence.
 
@@ -502,3 +502,15 @@ Fixpoint occurs_id (n : string) (e : expr) : bool :=
   | ECompose args => existsb (fun s => occurs_id n (slot_e s)) args
   | EAff d s => occurs_id n d || occurs_id n s
   end.
+
+(** * Read set of an assignment list (C08) *)
+Definition reads (l : list expr) : list expr := fold_left (fun acc a => set_union acc (get_r true a)) l [].
+Lemma InR_reads_in a l x : In a l -> InR x (get_r true a) -> InR x (reads l).
+Proof. intros I H. unfold reads. exact (InR_fold_in (get_r true) x l [] a I H). Qed.
+Lemma reads_coincidence rho rho' mu mu' iota l :
+  (forall x, InR x (reads l) -> agree rho rho' mu mu' iota true x) ->
+  map (eval rho mu iota) l = map (eval rho' mu' iota) l.
+Proof.
+  intros H. apply map_ext_in. intros a Ia.
+  apply (get_r_coincidence rho rho' mu mu' iota true). intros x Hx. apply H. exact (InR_reads_in a l x Ia Hx).
+Qed.
